@@ -35,7 +35,7 @@ func (c18) Required() []string {
 func (c18) Cases(tier string, seed uint64) []core.Case {
 	n := 160
 	if tier == "thorough" {
-		n = 4000
+		n = 40000
 	}
 	r := core.NewRng(core.Mix(seed, 0xC18))
 	var out []core.Case
